@@ -126,6 +126,12 @@ class SSETransport(Transport):
             # Wait for SSE connection to establish
             try:
                 await asyncio.wait_for(self._connected.wait(), timeout=self.timeout)
+                if not self._message_url:
+                    # The connection handler gave up (refused, bad status, stream
+                    # ended) without the server announcing its message endpoint
+                    raise RuntimeError(
+                        f"SSE connection to {self.base_url} failed: no message endpoint announced"
+                    )
                 logger.info(f"SSE connection established to {self.base_url}")
                 return self
 
